@@ -175,7 +175,7 @@ func errOutcome(err error) string {
 }
 
 // runCase drives one input through every entry point.
-func (w *worker) runCase(c *gcase, soft, hard time.Duration) *caseResult {
+func (w *worker) runCase(c *gcase, soft, hard, cpuBudget time.Duration) *caseResult {
 	res := &caseResult{I: c.Index, Feats: c.Feats}
 	var sockWrites *int64
 	activity := func() int64 {
@@ -187,7 +187,7 @@ func (w *worker) runCase(c *gcase, soft, hard time.Duration) *caseResult {
 	}
 	guard := func(target string, f func()) bool {
 		fmt.Println("TARGET", target)
-		st, rec := callGuarded(target, activity, soft, hard, f)
+		st, rec := callGuarded(target, activity, soft, hard, cpuBudget, f)
 		switch st {
 		case callPanicked:
 			res.Panics = append(res.Panics, *rec)
@@ -210,11 +210,20 @@ func (w *worker) runCase(c *gcase, soft, hard time.Duration) *caseResult {
 	if c.Schema == "gw" {
 		schema = w.gw.schemas["s1"]
 	}
-	var q *graphql.Query
-	var perr error
-	if !guard("Parse", func() { q, perr = graphql.Parse(c.Query, c.Vars) }) {
-		q, perr = nil, errors.New("did not return")
+	// parse runs graphql.Parse behind the guard; results are handed over only
+	// when the call returned (an abandoned call may still write its locals later)
+	parse := func(target string) (*graphql.Query, error) {
+		type result struct {
+			q   *graphql.Query
+			err error
+		}
+		r := &result{}
+		if guard(target, func() { r.q, r.err = graphql.Parse(c.Query, c.Vars) }) {
+			return r.q, r.err
+		}
+		return nil, errors.New("did not return")
 	}
+	q, perr := parse("Parse")
 	out("parse:" + errOutcome(perr))
 	res.NonTrivial = q != nil
 	if perr == nil && q != nil {
@@ -296,7 +305,7 @@ func (w *worker) runCase(c *gcase, soft, hard time.Duration) *caseResult {
 		}
 		out(o)
 		if len(owed) > 0 && !readErr {
-			if drainOutcome == vlib.QuiescentNot {
+			if drainOutcome == vlib.QuiescentNot && !anyRunnable(nil) {
 				res.Hangs = append(res.Hangs, "ServeJSONSocket: no envelope for ids "+strings.Join(owed, ","))
 				res.HangStacks = append(res.HangStacks, thunderStacks(nil)...)
 			} else {
@@ -311,14 +320,12 @@ func (w *worker) runCase(c *gcase, soft, hard time.Duration) *caseResult {
 	}
 
 	// D. gateway, E. federated server
-	var q2 *graphql.Query
-	if guard("Parse(2)", func() { q2, perr = graphql.Parse(c.Query, c.Vars) }) && perr == nil && q2 != nil {
+	if q2, perr2 := parse("Parse(2)"); perr2 == nil && q2 != nil {
 		var gerr error
 		if guard("federation.Executor.Execute", func() { _, _, gerr = w.gw.exec.Execute(ctx, q2, nil) }) {
 			out("gateway:" + errOutcome(gerr))
 		}
-		var q3 *graphql.Query
-		if guard("Parse(3)", func() { q3, perr = graphql.Parse(c.Query, c.Vars) }) && perr == nil && q3 != nil {
+		if q3, perr3 := parse("Parse(3)"); perr3 == nil && q3 != nil {
 			var serr error
 			if guard("federation.Server.Execute", func() {
 				var m *thunderpb.Query
@@ -362,7 +369,7 @@ func TestChildWorker(t *testing.T) {
 			c := genCase(run.Rand("m1", i), i, w.zooDesc, w.gwDesc)
 			_ = os.WriteFile(path, []byte(c.text()), 0o644)
 			fmt.Println("CASE", i)
-			res := w.runCase(c, time.Second, 10*time.Second)
+			res := w.runCase(c, 2*time.Second, 20*time.Second, 4*time.Second)
 			b, _ := json.Marshal(res)
 			fmt.Println("RES " + string(b))
 			if spinning(res.HangStacks) && i+1 < to {
@@ -395,7 +402,7 @@ func TestChildWorker(t *testing.T) {
 			c.WS = []string{`{"id":"d","type":"subscribe","message":` + c.HTTPBody + `}`}
 			_ = os.WriteFile(currentInputPath(os.Getenv("C15_TAG")), []byte("deep input "+in.Name+" ("+in.How+")\n"+vlib.Trunc(c.Query, 4000)), 0o644)
 			fmt.Println("CASE", k, in.Name)
-			res := w.runCase(c, 20*time.Second, 100*time.Second)
+			res := w.runCase(c, 20*time.Second, 150*time.Second, 120*time.Second)
 			b, _ := json.Marshal(res)
 			fmt.Println("RES " + string(b))
 			if spinning(res.HangStacks) {
